@@ -511,8 +511,13 @@ proof fn dfs_unrev(fb: Seq<FrameBufferValue>, fio: Seq<Frame>, m: Map<String, (u
 
 // ---------- cycle verdict: CircularDependence / SelfDependentRule are reported only for a real cycle ----------
 // the rule graph, abstractly: g(a, b) = rule a depends on rule b (a source of a is a target of b); n rules
-spec fn in_g(f: Frame, m: Map<String, (usize, usize)>, g: spec_fn(int, int) -> bool, n: int) -> bool { f.index < n && forall|b: int| #[trigger] dep(f, m, b) ==> 0 <= b < n && g(f.index as int, b) }
-spec fn all_in_g(v: Seq<Frame>, m: Map<String, (usize, usize)>, g: spec_fn(int, int) -> bool, n: int) -> bool { forall|p: int| 0 <= p < v.len() ==> in_g(#[trigger] v[p], m, g, n) }
+// ft: the frame of every rule as the table was built (frames move between table, stack, reverser and the emitted list, but their
+// sources never change); the rule graph: a depends on b when a source of rule a is a target of rule b
+spec fn in_g(f: Frame, ft: Seq<Frame>) -> bool { f.index < ft.len() && f.sources == ft[f.index as int].sources && f.targets == ft[f.index as int].targets }
+spec fn all_in_g(v: Seq<Frame>, ft: Seq<Frame>) -> bool { forall|p: int| 0 <= p < v.len() ==> in_g(#[trigger] v[p], ft) }
+spec fn gf(ft: Seq<Frame>, m: Map<String, (usize, usize)>) -> spec_fn(int, int) -> bool { |a: int, b: int| 0 <= a < ft.len() && dep(ft[a], m, b) }
+proof fn dep_same(f: Frame, f2: Frame, m: Map<String, (usize, usize)>, b: int) requires f.sources == f2.sources, dep(f, m, b) ensures dep(f2, m, b)
+{ assert(dep_upto(f, m, b, f.sources@.len() as int)); assert(dep_upto(f2, m, b, f2.sources@.len() as int)); }
 spec fn is_path(g: spec_fn(int, int) -> bool, n: int, p: Seq<int>) -> bool {
     p.len() >= 1 && (forall|i: int| 0 <= i < p.len() ==> 0 <= #[trigger] p[i] < n) && (forall|i: int| #![trigger p[i]] 0 <= i < p.len() - 1 ==> g(p[i], p[i + 1]))
 }
@@ -724,9 +729,10 @@ proof fn cycle_found(stack: Seq<Frame>, rev: Seq<Frame>, cur: int, g: spec_fn(in
 }
 proof fn self_cycle(g: spec_fn(int, int) -> bool, n: int, a: int) requires 0 <= a < n, g(a, a) ensures cyclic(g, n) { reach_refl(g, n, a); }
 // a frame keeps its place in the graph when only its sub_index / visited flag change
-proof fn in_g_same(f: Frame, f2: Frame, m: Map<String, (usize, usize)>, g: spec_fn(int, int) -> bool, n: int)
-    requires in_g(f, m, g, n), f2.index == f.index, f2.sources == f.sources ensures in_g(f2, m, g, n)
-{ assert forall|b: int| #[trigger] dep(f2, m, b) implies 0 <= b < n && g(f2.index as int, b) by { assert(dep_upto(f, m, b, f.sources@.len() as int)); assert(dep(f, m, b)); } }
+proof fn in_g_same(f: Frame, f2: Frame, ft: Seq<Frame>) requires in_g(f, ft), f2.index == f.index, f2.sources == f.sources, f2.targets == f.targets ensures in_g(f2, ft) {}
+// what a frame depends on is an edge of the graph
+proof fn g_edge(f: Frame, ft: Seq<Frame>, m: Map<String, (usize, usize)>, b: int) requires in_g(f, ft), dep(f, m, b) ensures gf(ft, m)(f.index as int, b)
+{ dep_same(f, ft[f.index as int], m, b); }
 // source k of f is a target of rule b: f depends on b
 proof fn dep_intro(f: Frame, m: Map<String, (usize, usize)>, k: int, b: int)
     requires 0 <= k < f.sources@.len(), m.contains_key(f.sources@[k]), m[f.sources@[k]].0 == b ensures dep(f, m, b)
@@ -739,6 +745,134 @@ spec fn edge_t(tab: Seq<RuleSpec>, a: int, b: int) -> bool {
     0 <= a < tab.len() && exists|j: int, s: int| 0 <= j < tab[a].sources.len() && #[trigger] is_target(tab, b, s, sort_spec(tab[a].sources)[j])
 }
 spec fn g_tab(tab: Seq<RuleSpec>) -> spec_fn(int, int) -> bool { |a: int, b: int| edge_t(tab, a, b) }
+
+// ---------- scope: a traversal emits only rules that the start rule needs ----------
+spec fn later_parent(fio: Seq<Frame>, g: spec_fn(int, int) -> bool, p: int) -> bool { exists|p2: int| p < p2 < fio.len() && g((#[trigger] fio[p2]).index as int, fio[p].index as int) }
+spec fn stack_parent(fio: Seq<Frame>, stack: Seq<Frame>, g: spec_fn(int, int) -> bool, p: int) -> bool { exists|q: int| 0 <= q < stack.len() && (#[trigger] stack[q]).visited && g(stack[q].index as int, fio[p].index as int) }
+// every rule emitted by this traversal (positions >= base) is something a later emitted rule, or a visited rule still on the stack,
+// depends on -- except the start rule, which sits at the bottom of the stack and is emitted last
+#[verifier::opaque]
+spec fn scope_inv(fio: Seq<Frame>, base: int, stack: Seq<Frame>, cur: int, nrev: int, start: int, g: spec_fn(int, int) -> bool) -> bool {
+    &&& 0 <= base <= fio.len()
+    &&& forall|p: int| #![trigger fio[p]] base <= p < fio.len() ==> later_parent(fio, g, p) || stack_parent(fio, stack, g, p) || (stack.len() == 0 && cur < 0 && p == fio.len() - 1)
+    &&& (stack.len() > 0 ==> stack[0].index == start && (stack[0].visited || (stack.len() == 1 && cur < 0 && nrev == 0)))
+    &&& (stack.len() == 0 && cur >= 0 ==> cur == start)
+    &&& (stack.len() == 0 && cur < 0 && fio.len() > base ==> fio.last().index == start)
+}
+// what a finished traversal leaves: every rule it emitted except the last is needed by a later one; the last one is the start rule
+spec fn scope_done(fio: Seq<Frame>, base: int, start: int, g: spec_fn(int, int) -> bool) -> bool {
+    &&& 0 <= base <= fio.len()
+    &&& forall|p: int| #![trigger fio[p]] base <= p < fio.len() - 1 ==> later_parent(fio, g, p)
+    &&& (fio.len() > base ==> fio.last().index == start)
+}
+proof fn scope_none(fio: Seq<Frame>, start: int, g: spec_fn(int, int) -> bool) ensures scope_done(fio, fio.len() as int, start, g) {}
+proof fn scope_first(fio: Seq<Frame>, f: Frame, g: spec_fn(int, int) -> bool)
+    ensures scope_inv(fio, fio.len() as int, Seq::<Frame>::empty().push(f), -1, 0, f.index as int, g)
+{ reveal(scope_inv); }
+proof fn scope_finish(fio: Seq<Frame>, base: int, stack: Seq<Frame>, start: int, g: spec_fn(int, int) -> bool)
+    requires scope_inv(fio, base, stack, -1, 0, start, g), stack.len() == 0 ensures scope_done(fio, base, start, g)
+{
+    reveal(scope_inv);
+    assert forall|p: int| #![trigger fio[p]] base <= p < fio.len() - 1 implies later_parent(fio, g, p) by { assert(!stack_parent(fio, stack, g, p)); }
+}
+proof fn scope_pop(fio: Seq<Frame>, base: int, stack0: Seq<Frame>, start: int, g: spec_fn(int, int) -> bool)
+    requires scope_inv(fio, base, stack0, -1, 0, start, g), stack0.len() > 0, !stack0.last().visited
+    ensures scope_inv(fio, base, stack0.drop_last(), stack0.last().index as int, 0, start, g)
+{
+    reveal(scope_inv);
+    let s1 = stack0.drop_last(); let top = stack0.len() - 1;
+    assert forall|p: int| #![trigger fio[p]] base <= p < fio.len() implies later_parent(fio, g, p) || stack_parent(fio, s1, g, p) by {
+        if !later_parent(fio, g, p) {
+            assert(stack_parent(fio, stack0, g, p));
+            let q = choose|q: int| 0 <= q < stack0.len() && (#[trigger] stack0[q]).visited && g(stack0[q].index as int, fio[p].index as int);
+            assert(q != top); assert(s1[q] == stack0[q]);
+        }
+    }
+    if s1.len() > 0 { assert(s1[0] == stack0[0]); }
+}
+// the top frame V, visited, is emitted: what depended on V's presence on the stack now has a later emitted parent; V's own parent is
+// the nearest visited frame below it (par_inv), which stays on the stack -- unless V is the start rule at the bottom
+proof fn scope_emit(fio: Seq<Frame>, base: int, stack0: Seq<Frame>, start: int, g: spec_fn(int, int) -> bool)
+    requires scope_inv(fio, base, stack0, -1, 0, start, g), par_inv(stack0, Seq::empty(), -1, g), stack0.len() > 0, stack0.last().visited
+    ensures scope_inv(fio.push(stack0.last()), base, stack0.drop_last(), -1, 0, start, g)
+{
+    reveal(scope_inv); reveal(par_inv);
+    let v = stack0.last(); let s1 = stack0.drop_last(); let top = stack0.len() - 1; let fio2 = fio.push(v); let n = fio.len() as int;
+    assert(fio2[n] == v);
+    assert forall|p: int| #![trigger fio2[p]] base <= p < fio2.len() implies later_parent(fio2, g, p) || stack_parent(fio2, s1, g, p) || (s1.len() == 0 && p == fio2.len() - 1) by {
+        if p < n {
+            assert(fio2[p] == fio[p]);
+            if later_parent(fio, g, p) {
+                let p2 = choose|p2: int| p < p2 < fio.len() && g((#[trigger] fio[p2]).index as int, fio[p].index as int);
+                assert(fio2[p2] == fio[p2]); assert(later_parent(fio2, g, p));
+            } else {
+                assert(stack_parent(fio, stack0, g, p));
+                let q = choose|q: int| 0 <= q < stack0.len() && (#[trigger] stack0[q]).visited && g(stack0[q].index as int, fio[p].index as int);
+                if q == top { assert(g(fio2[n].index as int, fio2[p].index as int)); assert(later_parent(fio2, g, p)); }
+                else { assert(s1[q] == stack0[q]); assert(stack_parent(fio2, s1, g, p)); }
+            }
+        } else if top > 0 {
+            assert(stack0[0].visited);
+            np_ge(stack0, 0, top); np_props(stack0, top);
+            let k = np(stack0, top);
+            assert(g(stack0[k].index as int, stack0[top].index as int));
+            assert(s1[k] == stack0[k]); assert(stack_parent(fio2, s1, g, p));
+        }
+    }
+    if s1.len() > 0 { assert(s1[0] == stack0[0]); }
+}
+proof fn scope_nrev(fio: Seq<Frame>, base: int, stack: Seq<Frame>, cur: int, nrev: int, nrev2: int, start: int, g: spec_fn(int, int) -> bool)
+    requires scope_inv(fio, base, stack, cur, nrev, start, g), cur >= 0 ensures scope_inv(fio, base, stack, cur, nrev2, start, g)
+{ reveal(scope_inv); }
+proof fn scope_sibling(fio: Seq<Frame>, base: int, stack: Seq<Frame>, cur: int, nrev: int, start: int, g: spec_fn(int, int) -> bool, pos: int)
+    requires scope_inv(fio, base, stack, cur, nrev, start, g), cur >= 0, 0 <= pos < stack.len(), !stack[pos].visited
+    ensures scope_inv(fio, base, stack.remove(pos), cur, nrev + 1, start, g)
+{
+    reveal(scope_inv);
+    let t = stack.remove(pos);
+    assert(pos != 0);
+    assert(t[0] == stack[0]);
+    assert forall|p: int| #![trigger fio[p]] base <= p < fio.len() implies later_parent(fio, g, p) || stack_parent(fio, t, g, p) by {
+        if !later_parent(fio, g, p) {
+            assert(stack_parent(fio, stack, g, p));
+            let q = choose|q: int| 0 <= q < stack.len() && (#[trigger] stack[q]).visited && g(stack[q].index as int, fio[p].index as int);
+            assert(q != pos);
+            if q < pos { assert(t[q] == stack[q]); } else { assert(t[q - 1] == stack[q]); }
+        }
+    }
+}
+proof fn scope_visit(fio: Seq<Frame>, base: int, stack: Seq<Frame>, cur: int, nrev: int, start: int, g: spec_fn(int, int) -> bool, fv: Frame)
+    requires scope_inv(fio, base, stack, cur, nrev, start, g), cur >= 0, fv.index == cur, fv.visited
+    ensures scope_inv(fio, base, stack.push(fv), -1, nrev, start, g)
+{
+    reveal(scope_inv);
+    let s2 = stack.push(fv);
+    if stack.len() > 0 { assert(s2[0] == stack[0]); } else { assert(s2[0] == fv); }
+    assert forall|p: int| #![trigger fio[p]] base <= p < fio.len() implies later_parent(fio, g, p) || stack_parent(fio, s2, g, p) by {
+        let fp = fio[p];
+        if !later_parent(fio, g, p) {
+            assert(stack_parent(fio, stack, g, p));
+            let q = choose|q: int| 0 <= q < stack.len() && (#[trigger] stack[q]).visited && g(stack[q].index as int, fio[p].index as int);
+            assert(s2[q] == stack[q]);
+        }
+    }
+}
+proof fn scope_unrev(fio: Seq<Frame>, base: int, stack: Seq<Frame>, nrev: int, start: int, g: spec_fn(int, int) -> bool, f: Frame)
+    requires scope_inv(fio, base, stack, -1, nrev, start, g), nrev > 0, stack.len() > 0
+    ensures scope_inv(fio, base, stack.push(f), -1, nrev - 1, start, g)
+{
+    reveal(scope_inv);
+    let s2 = stack.push(f);
+    assert(s2[0] == stack[0]);
+    assert forall|p: int| #![trigger fio[p]] base <= p < fio.len() implies later_parent(fio, g, p) || stack_parent(fio, s2, g, p) by {
+        let fp = fio[p];
+        if !later_parent(fio, g, p) {
+            assert(stack_parent(fio, stack, g, p));
+            let q = choose|q: int| 0 <= q < stack.len() && (#[trigger] stack[q]).visited && g(stack[q].index as int, fio[p].index as int);
+            assert(s2[q] == stack[q]);
+        }
+    }
+}
 // every rule-to-rule edge of the plan points to an EARLIER node, and at one of that node's targets
 spec fn edges_back(nodes: Seq<Node>) -> bool {
     forall|i: int, k: int| 0 <= i < nodes.len() && 0 <= k < nodes[i].source_indices@.len() ==>
@@ -773,12 +907,54 @@ proof fn plan_order(nodes: Seq<Node>, fio: Seq<Frame>, leaves: Seq<String>, m: M
         }
     }
 }
+// node i feeds a later node: some later node has a source bound to (i, some target of i)
+spec fn feeds_later(nodes: Seq<Node>, i: int) -> bool {
+    exists|j: int, k: int| i < j < nodes.len() && 0 <= k < nodes[j].source_indices@.len() && (#[trigger] nodes[j].source_indices@[k] matches SourceIndex::Pair(p, _) && p == i)
+}
+// every node but the last feeds a later node: by induction every node is something the LAST node needs -- nothing out of scope is in the plan
+spec fn scoped(nodes: Seq<Node>) -> bool { forall|i: int| 0 <= i < nodes.len() - 1 ==> #[trigger] feeds_later(nodes, i) }
+proof fn plan_scope(nodes: Seq<Node>, fio: Seq<Frame>, leaves: Seq<String>, m: Map<String, (usize, usize)>, fb: Seq<FrameBufferValue>, tl: Seq<int>, ft: Seq<Frame>, start: int)
+    requires rest_ok(fb, fio, m, tl), nodes.len() == fio.len(), forall|i: int| 0 <= i < nodes.len() ==> node_of(#[trigger] nodes[i], fio[i], leaves, m, fb),
+        all_in_g(fio, ft), scope_done(fio, 0, start, gf(ft, m)), 0 <= start < ft.len(),
+        forall|x: String| leaves.contains(x) ==> !(#[trigger] m.contains_key(x)),
+    ensures scoped(nodes), nodes.len() > 0 ==> nodes.last().targets == ft[start].targets,
+{
+    reveal(rest_ok);
+    let g = gf(ft, m);
+    assert forall|i: int| 0 <= i < nodes.len() - 1 implies #[trigger] feeds_later(nodes, i) by {
+        let fi = fio[i];
+        assert(later_parent(fio, g, i));
+        let j = choose|p2: int| i < p2 < fio.len() && g((#[trigger] fio[p2]).index as int, fio[i].index as int);
+        let b = fio[i].index as int;
+        assert(in_g(fio[j], ft));
+        dep_same(ft[fio[j].index as int], fio[j], m, b);
+        assert(dep_upto(fio[j], m, b, fio[j].sources@.len() as int));
+        let k = choose|k: int| 0 <= k < fio[j].sources@.len() && k < fio[j].sources@.len() && m.contains_key(#[trigger] fio[j].sources@[k]) && m[fio[j].sources@[k]].0 == b;
+        let key = fio[j].sources@[k];
+        assert(node_of(nodes[j], fio[j], leaves, m, fb));
+        assert(src_bound(nodes[j].source_indices@[k], key, leaves, m, fb));
+        match nodes[j].source_indices@[k] {
+            SourceIndex::Leaf(l) => { assert(leaves[l as int] == key); assert(leaves.contains(key)); assert(false); },
+            SourceIndex::Pair(pp, sub) => {
+                assert(fok(fio[i], tl)); assert(fb[b].final_index == i); assert(pp == i);
+                assert(i < j < nodes.len() && 0 <= k < nodes[j].source_indices@.len());
+                assert(nodes[j].source_indices@[k] matches SourceIndex::Pair(p, _) && p == i);
+                assert(feeds_later(nodes, i));
+            },
+        }
+    }
+    if nodes.len() > 0 { let l = nodes.len() - 1; assert(node_of(nodes[l], fio[l], leaves, m, fb)); assert(in_g(fio[l], ft)); }
+}
 impl TopologicalSortMachine {
     // every emitted frame knows where each of its sources comes from (needed by get_result's unwrap)
-    spec fn wf_e(&self) -> bool { all_known(self.frames_in_order@, self.to_buffer_index@, self.source_leaves@, false) }
+    spec fn wf_e(&self) -> bool {
+        &&& all_known(self.frames_in_order@, self.to_buffer_index@, self.source_leaves@, false)
+        &&& forall|x: String| self.source_leaves@.contains(x) ==> !(#[trigger] self.to_buffer_index@.contains_key(x))      // a recorded leaf is no rule's target
+    }
     // every frame still in the table is a node of the graph g (its dependencies are edges of g)
-    spec fn wf_g(&self, g: spec_fn(int, int) -> bool, n: int) -> bool {
-        forall|b: int| 0 <= b < self.frame_buffer@.len() ==> ((#[trigger] self.frame_buffer@[b]).opt_frame matches Some(f) ==> in_g(f, self.to_buffer_index@, g, n))
+    spec fn wf_g(&self, ft: Seq<Frame>) -> bool {
+        &&& forall|b: int| 0 <= b < self.frame_buffer@.len() ==> ((#[trigger] self.frame_buffer@[b]).opt_frame matches Some(f) ==> in_g(f, ft))
+        &&& all_in_g(self.frames_in_order@, ft)
     }
     // between calls: the emitted list is in dependency order and every rule taken from the table is in it
     spec fn wf_o(&self, tl: Seq<int>) -> bool { rest_ok(self.frame_buffer@, self.frames_in_order@, self.to_buffer_index@, tl) }
@@ -798,24 +974,27 @@ impl TopologicalSortMachine {
 //@ rewrite 1 /source\.to_owned\(\)/ => string_to_owned(source)
 //@ retype 1 /let mut reverser = vec!\[\];/ => let mut reverser : Vec<Frame> = Vec::new();
 //@ retype 1 /let mut target_cycle = vec!\[\];/ => let mut target_cycle : Vec<String> = Vec::new();
-//@ param Ghost(tl): Ghost<Seq<int>>, Ghost(g): Ghost<spec_fn(int, int) -> bool>
+//@ param Ghost(tl): Ghost<Seq<int>>, Ghost(ft): Ghost<Seq<Frame>>
 //@ spec
-        requires old(self).wf_s(tl), old(self).wf_e(), old(self).wf_o(tl), old(self).wf_g(g, tl.len() as int), index < tl.len(), sub_index < tl[index as int],
+        requires old(self).wf_s(tl), old(self).wf_e(), old(self).wf_o(tl), old(self).wf_g(ft), ft.len() == tl.len(), index < tl.len(), sub_index < tl[index as int],
         ensures final(self).wf_s(tl),                                                     //# O-S-machine-wf [C12,C05]
             res is Ok ==> final(self).wf_e(),                                             //# O-S-sources-known [C12,C05]
             // a rule is emitted only after every rule it depends on: the emitted list stays in dependency order             //# O-S-order [C12,C03,C05]
             res is Ok ==> final(self).wf_o(tl),
             // an error is reported only for a REAL cycle of the rule graph (a rule depending on itself is a cycle of length one):
             // acyclic rule sets are never rejected                                                                          //# O-S-cycle-real [C12]
-            res matches Err(e) ==> (e is CircularDependence || e is SelfDependentRule) && cyclic(g, tl.len() as int),
-            final(self).wf_g(g, tl.len() as int),
+            res matches Err(e) ==> (e is CircularDependence || e is SelfDependentRule) && cyclic(gf(ft, old(self).to_buffer_index@), tl.len() as int),
+            final(self).wf_g(ft),
+            // scope: every rule this call emitted, except the last, is needed by a rule it emitted later; the last is the start rule     //# O-S-scope [C09,C12]
+            res is Ok ==> scope_done(final(self).frames_in_order@, old(self).frames_in_order@.len() as int, index as int, gf(ft, old(self).to_buffer_index@)),
+            res is Ok ==> final(self).frame_buffer@[index as int].opt_frame is None,
             final(self).to_buffer_index@ == old(self).to_buffer_index@,
 //@ hint start
         broadcast use vstd::std_specs::hash::group_hash_axioms;
         proof { string_key_model(); usize_key_model(); }
-        let ghost m = self.to_buffer_index@; let ghost fbs = self.frame_buffer@; let ghost fios = self.frames_in_order@; let ghost n = tl.len() as int;
+        let ghost m = self.to_buffer_index@; let ghost fbs = self.frame_buffer@; let ghost fios = self.frames_in_order@; let ghost n = tl.len() as int; let ghost g = gf(ft, m); let ghost base = self.frames_in_order@.len() as int; let ghost start = index as int;
 //@ hint before 1/1 /return Ok\(\(\)\);/
-                proof { assert(self.frame_buffer@ =~= fbs); }
+                proof { assert(self.frame_buffer@ =~= fbs); scope_none(fios, start, g); }
 //@ hint after 1/1 /let mut stack = vec!\[starting_frame\];/
         proof {
             let e = Seq::<Frame>::empty();
@@ -826,17 +1005,18 @@ impl TopologicalSortMachine {
             dfs_unrev(self.frame_buffer@, fios, m, tl, e, e.push(stack@[0]), Set::empty(), stack@[0]);
             assert(stack@ =~= e.push(stack@[0]));
             assert(indices_in_stack@ =~= Set::<usize>::empty().insert(index));
-            par_first(stack@[0], g);
-            in_g_same(fbs[index as int].opt_frame->Some_0, stack@[0], m, g, n);
+            par_first(stack@[0], g); scope_first(fios, stack@[0], g);
+            in_g_same(fbs[index as int].opt_frame->Some_0, stack@[0], ft);
         }
         let ghost mut gst = stack@;      // the stack as it was at the loop head (a `while let .. pop()` leaves no name for it)
 //@ hint before 2/2 /Ok\(\(\)\)/
-        proof { dfs_finish(self.frame_buffer@, self.frames_in_order@, m, tl, stack@, indices_in_stack@); }
+        proof { dfs_finish(self.frame_buffer@, self.frames_in_order@, m, tl, stack@, indices_in_stack@); scope_finish(self.frames_in_order@, base, stack@, start, g); }
 //@ loop 1 invariant
             invariant self.wf_s(tl), all_fok(stack@, tl), obeys_key_model::<String>(), obeys_key_model::<usize>(),
                 self.wf_e(), all_known(stack@, self.to_buffer_index@, self.source_leaves@, true), self.to_buffer_index@ == old(self).to_buffer_index@,
                 m == self.to_buffer_index@, dfs_inv(self.frame_buffer@, self.frames_in_order@, m, tl, stack@, Seq::empty(), -1, indices_in_stack@), gst == stack@,
-                n == tl.len(), self.wf_g(g, n), all_in_g(stack@, m, g, n), par_inv(stack@, Seq::empty(), -1, g),
+                n == tl.len(), n == ft.len(), g == gf(ft, m), self.frame_buffer@[index as int].opt_frame is None, self.wf_g(ft), all_in_g(stack@, ft), par_inv(stack@, Seq::empty(), -1, g),
+                scope_inv(self.frames_in_order@, base, stack@, -1, 0, start, g),
             ensures stack@.len() == 0,
             decreases count_some(self.frame_buffer@) + count_unv(stack@), stack@.len(),
 //@ hint after 1/1 /while let Some\(frame\) = stack\.pop\(\)\s*\{/
@@ -850,11 +1030,12 @@ impl TopologicalSortMachine {
                 proof {
                     dfs_emit(fb0, fio0, m, tl, stk0, is0, fr_cur, self.frame_buffer@[fr_cur.index as int], self.frame_buffer@);
                     assert(stk0.drop_last() =~= stack@);
+                    scope_emit(fio0, base, stk0, start, g);
                     par_emit(stk0, g);
                     gst = stack@;
                 }
 //@ hint after 1/1 /let mut reverser = vec!\[\];/
-                proof { dfs_pop(fb0, fio0, m, tl, stk0, is0, fr_cur); assert(stk0.drop_last() =~= stack@); par_pop(stk0, g); }
+                proof { dfs_pop(fb0, fio0, m, tl, stk0, is0, fr_cur); assert(stk0.drop_last() =~= stack@); par_pop(stk0, g); scope_pop(fio0, base, stk0, start, g); }
                 let ghost mut grv = reverser@;      // the reverser as it was at the head of the loop that empties it
 //@ hint before 1/1 /while let Some\(f\) = reverser\.pop\(\)/
                 proof { grv = reverser@; }
@@ -868,17 +1049,19 @@ impl TopologicalSortMachine {
                         m == self.to_buffer_index@, fr_cur == frame, cur == frame.index,
                         dfs_inv(self.frame_buffer@, self.frames_in_order@, m, tl, stack@, reverser@, cur, indices_in_stack@),
                         srcs_placed(frame, m, it.index@, self.frame_buffer@, self.frames_in_order@, reverser@),
-                        n == tl.len(), self.wf_g(g, n), all_in_g(stack@, m, g, n), all_in_g(reverser@, m, g, n), in_g(frame, m, g, n), par_inv(stack@, reverser@, cur, g),
+                        n == tl.len(), n == ft.len(), g == gf(ft, m), self.frame_buffer@[index as int].opt_frame is None, self.wf_g(ft), all_in_g(stack@, ft), all_in_g(reverser@, ft), in_g(frame, ft), par_inv(stack@, reverser@, cur, g),
+                        scope_inv(self.frames_in_order@, base, stack@, cur, reverser@.len() as int, start, g),
 //@ loop 3 binder it3
 //@ loop 3 invariant
-                                                invariant all_fok(stack@, tl), fok(frame, tl), cyclic(g, n), n == tl.len(),
+                                                invariant all_fok(stack@, tl), fok(frame, tl), cyclic(g, n), n == tl.len(), g == gf(ft, m),
 //@ loop 4 invariant
                     invariant self.wf_s(tl), all_fok(stack@, tl), all_fok(reverser@, tl), obeys_key_model::<usize>(),
                         all_unv(reverser@),
                         self.wf_e(), all_known(stack@, self.to_buffer_index@, self.source_leaves@, true), self.to_buffer_index@ == old(self).to_buffer_index@,
                         count_some(self.frame_buffer@) + count_unv(stack@) + reverser@.len() == m0 - 1,
                         dfs_inv(self.frame_buffer@, self.frames_in_order@, m, tl, stack@, reverser@, -1, indices_in_stack@), grv == reverser@,
-                        n == tl.len(), self.wf_g(g, n), all_in_g(stack@, m, g, n), all_in_g(reverser@, m, g, n), par_inv(stack@, reverser@, -1, g),
+                        n == tl.len(), n == ft.len(), g == gf(ft, m), self.frame_buffer@[index as int].opt_frame is None, self.wf_g(ft), all_in_g(stack@, ft), all_in_g(reverser@, ft), par_inv(stack@, reverser@, -1, g),
+                        scope_inv(self.frames_in_order@, base, stack@, -1, reverser@.len() as int, start, g), stack@.len() > 0,
                     ensures reverser@.len() == 0,
                     decreases reverser@.len(),
 //@ hint before 1/1 /return Err\(TopologicalSortError::SelfDependentRule\(/
@@ -888,13 +1071,13 @@ impl TopologicalSortMachine {
                                                 dfs_on_stack(fb1, fio1, m, tl, st1, rv1, cur, is1, *buffer_index);
                                                 let q = choose|q: int| 0 <= q < st1.len() && (#[trigger] st1[q]).index == b1;
                                                 assert(st1[q].visited);
-                                                assert forall|p: int| 0 <= p < st1.len() implies (#[trigger] st1[p]).index < n by { assert(in_g(st1[p], m, g, n)); }
+                                                assert forall|p: int| 0 <= p < st1.len() implies (#[trigger] st1[p]).index < n by { assert(in_g(st1[p], ft)); }
                                                 cycle_found(st1, rv1, cur, g, n, q);
                                             }
 //@ hint before 1/1 /if let Some\(mut frame\) = self\.frame_buffer\[\*buffer_index\]\.opt_frame\.take\(\)/
                             let ghost fb1 = self.frame_buffer@; let ghost rv1 = reverser@; let ghost st1 = stack@; let ghost is1 = indices_in_stack@; let ghost fio1 = self.frames_in_order@;
                             let ghost k1 = it.index@; let ghost b1 = *buffer_index as int;
-                            proof { assert(m.contains_key(*source) && m[*source].0 == *buffer_index); assert(fr_cur.sources@[k1] == *source); dep_intro(fr_cur, m, k1, b1); assert(g(cur, b1)); }
+                            proof { assert(m.contains_key(*source) && m[*source].0 == *buffer_index); assert(fr_cur.sources@[k1] == *source); dep_intro(fr_cur, m, k1, b1); g_edge(fr_cur, ft, m, b1); assert(g(cur, b1)); }
 //@ hint after 1/1 /frame\.sub_index = \*sub_index;\s*reverser\.push\(frame\);/
                                 proof {
                                     assert(self.frame_buffer@ =~= fb1.update(*buffer_index as int, self.frame_buffer@[*buffer_index as int]));
@@ -904,7 +1087,8 @@ impl TopologicalSortMachine {
                                     assert(reverser@ =~= rv1.push(reverser@.last()));
                                     placed_step(fr_cur, m, k1, fb1, fio1, rv1, self.frame_buffer@, reverser@);
                                     par_take(st1, rv1, cur, g, reverser@.last());
-                                    in_g_same(fb1[b1].opt_frame->Some_0, reverser@.last(), m, g, n);
+                                    scope_nrev(fio1, base, st1, cur, rv1.len() as int, rv1.len() as int + 1, start, g);
+                                    in_g_same(fb1[b1].opt_frame->Some_0, reverser@.last(), ft);
                                 }
 //@ hint after 1/1 /sibling\.sub_index = \*sub_index;\s*reverser\.push\(sibling\);/
                                             proof {
@@ -913,7 +1097,8 @@ impl TopologicalSortMachine {
                                                 assert(reverser@ =~= rv1.push(reverser@.last()));
                                                 placed_step(fr_cur, m, k1, fb1, fio1, rv1, fb1, reverser@);
                                                 par_sibling(st1, rv1, cur, g, position as int, reverser@.last());
-                                                in_g_same(st1[position as int], reverser@.last(), m, g, n);
+                                                scope_sibling(fio1, base, st1, cur, rv1.len() as int, start, g, position as int);
+                                                in_g_same(st1[position as int], reverser@.last(), ft);
                                             }
 //@ hint before 1/1 /self\.source_leaves\.insert\(/
                             let ghost lv0 = self.source_leaves@;
@@ -941,7 +1126,8 @@ impl TopologicalSortMachine {
                     dfs_visit(self.frame_buffer@, self.frames_in_order@, m, tl, st_before_visit, reverser@, cur, is_before_visit, stack@.last());
                     assert(stack@ =~= st_before_visit.push(stack@.last()));
                     par_visit(st_before_visit, reverser@, cur, g, stack@.last());
-                    in_g_same(fr_cur, stack@.last(), m, g, n);
+                    scope_visit(self.frames_in_order@, base, st_before_visit, cur, reverser@.len() as int, start, g, stack@.last());
+                    in_g_same(fr_cur, stack@.last(), ft);
                 }
 //@ hint before 1/1 /stack\.push\(frame\.visit\(\)\);/
                 let ghost st_before_visit = stack@; let ghost is_before_visit = indices_in_stack@;
@@ -949,7 +1135,7 @@ impl TopologicalSortMachine {
                     let ghost st4 = stack@; let ghost rv4 = grv; let ghost is4 = indices_in_stack@; let ghost fg = f;
                     proof { assert(rv4.drop_last() =~= reverser@); }
 //@ hint after 1/1 /indices_in_stack\.insert\(f\.index\);\s*stack\.push\(f\);/
-                    proof { count_unv_push(st4, fg); dfs_unrev(self.frame_buffer@, self.frames_in_order@, m, tl, st4, rv4, is4, fg); assert(stack@ =~= st4.push(fg)); par_unrev(st4, rv4, g); grv = reverser@; }
+                    proof { count_unv_push(st4, fg); dfs_unrev(self.frame_buffer@, self.frames_in_order@, m, tl, st4, rv4, is4, fg); assert(stack@ =~= st4.push(fg)); par_unrev(st4, rv4, g); scope_unrev(self.frames_in_order@, base, st4, rv4.len() as int, start, g, fg); grv = reverser@; }
 //@ hint after 1/1 /indices_in_stack\.insert\(f\.index\);\s*stack\.push\(f\);\s*\}/
                 proof { assert(reverser@ =~= Seq::<Frame>::empty()); gst = stack@; }
 //@ end
@@ -966,7 +1152,7 @@ impl TopologicalSortMachine {
 //@ props C12 C05 C01
 //@ attr #[verifier::loop_isolation(false)]
 //@ ret res
-//@ param Ghost(tl): Ghost<Seq<int>>
+//@ param Ghost(tl): Ghost<Seq<int>>, Ghost(ft): Ghost<Seq<Frame>>, Ghost(start): Ghost<int>
 //@ insert before 1/1 /for leaf in self\.source_leaves/ => let leaf_vec = btree_into_vec(self.source_leaves);
 //@ rewrite 1 /(?<=for leaf in )self\.source_leaves/ => leaf_vec
 //@ rewrite 1 /self\.frames_in_order\.drain\(\.\.\)/ => self.frames_in_order
@@ -978,8 +1164,11 @@ impl TopologicalSortMachine {
 //@ retype 1 /let mut leaf_to_index = HashMap::new\(\);/ => let mut leaf_to_index : HashMap<String, usize> = HashMap::new();
 //@ retype 1 /let mut source_indices = vec!\[\];/ => let mut source_indices : Vec<SourceIndex> = Vec::new();
 //@ spec
-        requires self.wf_s(tl), self.wf_e(), self.wf_o(tl),
+        requires self.wf_s(tl), self.wf_e(), self.wf_o(tl), self.wf_g(ft),
         ensures
+            // scope: when the emitted list is the work of ONE traversal from `start`, every node but the last feeds a later node and the
+            // last node is the start rule -- so the plan holds nothing but the start rule and what it needs                          //# O-S-plan-scope [C09,C12]
+            res matches Ok(pack) ==> ((scope_done(self.frames_in_order@, 0, start, gf(ft, self.to_buffer_index@)) && 0 <= start < ft.len()) ==> scoped(pack.nodes@) && (pack.nodes@.len() > 0 ==> pack.nodes@.last().targets == ft[start].targets)),
             // dependency order: every rule-to-rule edge points to an earlier node and to one of its targets (so the plan is acyclic,
             // a rule's thread only waits for threads before it, and get_ticket(sub) is in bounds)                                     //# O-S-plan-order [C12,C03,C05]
             res matches Ok(pack) ==> plan_ok(pack),
@@ -1012,7 +1201,13 @@ impl TopologicalSortMachine {
             let ghost fr0 = frame;
             proof { assert(fr0 == fio[it2.index@]); assert(srcs_known(fr0, m, leafset, fr0.sources@.len() as int)); }
 //@ hint before 1/1 /Ok\(NodePack::new\(leaves, nodes\)\)/
-        proof { plan_order(nodes@, fio, leaves@, m, fb, tl); }
+        proof {
+            plan_order(nodes@, fio, leaves@, m, fb, tl);
+            if scope_done(fio, 0, start, gf(ft, m)) && 0 <= start < ft.len() {
+                assert forall|x: String| leaves@.contains(x) implies !(#[trigger] m.contains_key(x)) by { assert(leaf_vec@.contains(x)); assert(leafset.contains(x)); }
+                plan_scope(nodes@, fio, leaves@, m, fb, tl, ft, start);
+            }
+        }
 //@ loop 3 binder it3
 //@ loop 3 invariant
                 invariant source_indices@.len() == it3.index@,
@@ -1064,33 +1259,46 @@ proof fn table_wf(fb: Seq<FrameBufferValue>, m: Map<String, (usize, usize)>, tab
     }
 }
 
-// every frame of the fresh table is a node of the table's rule graph
+// the frames of the fresh table, by rule number
+spec fn table_frames(fb: Seq<FrameBufferValue>) -> Seq<Frame> { Seq::new(fb.len(), |a: int| fb[a].opt_frame->Some_0) }
+// the graph of the table's frames is (a sub-graph of) the table's rule graph
 proof fn table_in_g(fb: Seq<FrameBufferValue>, m: Map<String, (usize, usize)>, tab: Seq<RuleSpec>)
     requires fb.len() == tab.len(), forall|b: int| 0 <= b < tab.len() ==> slot_ok(#[trigger] fb[b], tab[b], b), index_ok(m, tab, tab.len() as int),
-    ensures forall|b: int| 0 <= b < fb.len() ==> ((#[trigger] fb[b]).opt_frame matches Some(f) ==> in_g(f, m, g_tab(tab), tab.len() as int))
+    ensures forall|b: int| 0 <= b < fb.len() ==> ((#[trigger] fb[b]).opt_frame matches Some(f) ==> in_g(f, table_frames(fb))),
+        forall|a: int, b: int| #[trigger] gf(table_frames(fb), m)(a, b) ==> g_tab(tab)(a, b),
 {
-    assert forall|a: int| 0 <= a < fb.len() implies ((#[trigger] fb[a]).opt_frame matches Some(f) ==> in_g(f, m, g_tab(tab), tab.len() as int)) by {
+    let ft = table_frames(fb);
+    assert forall|a: int| 0 <= a < fb.len() implies ((#[trigger] fb[a]).opt_frame matches Some(f) ==> in_g(f, ft)) by { assert(slot_ok(fb[a], tab[a], a)); }
+    assert forall|a: int, b: int| #[trigger] gf(ft, m)(a, b) implies g_tab(tab)(a, b) by {
         assert(slot_ok(fb[a], tab[a], a));
-        let f = fb[a].opt_frame->Some_0;
+        let f = ft[a];
         sort_axioms(tab[a].sources);
-        assert forall|b: int| #[trigger] dep(f, m, b) implies 0 <= b < tab.len() && g_tab(tab)(f.index as int, b) by {
-            let j = choose|j: int| 0 <= j < f.sources@.len() && j < f.sources@.len() && m.contains_key(#[trigger] f.sources@[j]) && m[f.sources@[j]].0 == b;
-            let key = f.sources@[j];
-            assert(is_target(tab, m[key].0 as int, m[key].1 as int, key@));
-            assert(strs(f.sources@)[j] == key@);
-            assert(strs(f.sources@).len() == f.sources@.len());
-            assert(is_target(tab, b, m[key].1 as int, sort_spec(tab[a].sources)[j]));
-            assert(edge_t(tab, a, b));
-        }
+        assert(dep_upto(f, m, b, f.sources@.len() as int));
+        let j = choose|j: int| 0 <= j < f.sources@.len() && j < f.sources@.len() && m.contains_key(#[trigger] f.sources@[j]) && m[f.sources@[j]].0 == b;
+        let key = f.sources@[j];
+        assert(is_target(tab, m[key].0 as int, m[key].1 as int, key@));
+        assert(strs(f.sources@)[j] == key@);
+        assert(strs(f.sources@).len() == f.sources@.len());
+        assert(is_target(tab, b, m[key].1 as int, sort_spec(tab[a].sources)[j]));
+        assert(edge_t(tab, a, b));
     }
+}
+// a cycle of a sub-graph is a cycle of the graph
+proof fn cyclic_mono(g1: spec_fn(int, int) -> bool, g2: spec_fn(int, int) -> bool, n: int)
+    requires cyclic(g1, n), forall|a: int, b: int| #[trigger] g1(a, b) ==> g2(a, b) ensures cyclic(g2, n)
+{
+    let (a, b) = choose|a: int, b: int| #[trigger] reach(g1, n, a, b) && g1(b, a);
+    let p = choose|p: Seq<int>| #[trigger] is_path(g1, n, p) && p[0] == a && p.last() == b;
+    assert(is_path(g2, n, p)) by { assert forall|i: int| #![trigger p[i]] 0 <= i < p.len() - 1 implies g2(p[i], p[i + 1]) by { assert(g1(p[i], p[i + 1])); } }
+    assert(reach(g2, n, a, b)); assert(g2(b, a));
 }
 
 //@ extract sort.rs fn topological_sort
 //@ props C12 C05 C01
 //@ ret res
 //@ rewrite 1 /to_buffer_index\.get\(goal_target\)/ => map_get_str(&to_buffer_index, goal_target)
-//@ addarg * /machine\.sort_once/ Ghost(tl), Ghost(g)
-//@ addarg * /machine\.get_result/ Ghost(tl)
+//@ addarg * /machine\.sort_once/ Ghost(tl), Ghost(ft)
+//@ addarg * /machine\.get_result/ Ghost(tl), Ghost(ft), Ghost(gstart)
 //@ spec
     requires rules@.len() <= usize::MAX, nonempty_targets(rules@),
     ensures
@@ -1103,11 +1311,14 @@ proof fn table_in_g(fb: Seq<FrameBufferValue>, m: Map<String, (usize, usize)>, t
         res matches Ok(pack) ==> plan_ok(pack),
         // a cycle is reported only when the rule set has one: acyclic rule sets are never rejected as cyclic                     //# O-S-cycle-real [C12]
         res matches Err(e) ==> ((e is CircularDependence || e is SelfDependentRule) ==> cyclic(g_tab(sort_rules_spec(rules_view(rules@))), sort_rules_spec(rules_view(rules@)).len() as int)),
+        // scope: the plan ends with the goal's rule, and every other node feeds a later node: it holds nothing the goal does not need     //# O-S-goal-scope [C09,C12]
+        res matches Ok(pack) ==> scoped(pack.nodes@) && pack.nodes@.len() > 0
+            && exists|s: int| 0 <= s < pack.nodes@.last().targets@.len() && (#[trigger] pack.nodes@.last().targets@[s])@ == goal_target@,
 //@ hint start
     broadcast use vstd::std_specs::hash::group_hash_axioms;
     proof { string_key_model(); }
     let ghost tab = sort_rules_spec(rules_view(rules@));
-    let ghost tl = tcounts(tab); let ghost g = g_tab(tab);
+    let ghost tl = tcounts(tab);
     let ghost rv = rules_view(rules@);
 //@ hint after 1/1 /let \(frame_buffer, to_buffer_index\) = rules_to_frame_buffer\(rules\)\?;/
     proof {
@@ -1120,16 +1331,31 @@ proof fn table_in_g(fb: Seq<FrameBufferValue>, m: Map<String, (usize, usize)>, t
         assert(rest_ok(frame_buffer@, Seq::<Frame>::empty(), to_buffer_index@, tl)) by { reveal(rest_ok); }
         table_in_g(frame_buffer@, to_buffer_index@, tab);
     }
+    let ghost ft = table_frames(frame_buffer@); let ghost m = to_buffer_index@;
+    proof { if cyclic(gf(ft, m), tab.len() as int) { cyclic_mono(gf(ft, m), g_tab(tab), tab.len() as int); } }
+//@ hint before 1/1 /let mut machine = TopologicalSortMachine::new\(frame_buffer, to_buffer_index\);/
+    let ghost gstart = index as int;
+    proof {
+        // the goal is target number sub_index of rule number index
+        let key = choose|key: String| #![trigger m.contains_key(key)] key@ == goal_target@ && m.contains_key(key) && m[key] == (index, sub_index);
+        assert(is_target(tab, m[key].0 as int, m[key].1 as int, key@));
+        assert(slot_ok(frame_buffer@[index as int], tab[index as int], index as int));
+        sort_axioms(tab[index as int].targets);
+        assert(strs(ft[gstart].targets@)[sub_index as int] == goal_target@);
+        assert(ft[gstart].targets@[sub_index as int]@ == goal_target@);
+    }
 //@ hint after 1/1 /let mut machine = TopologicalSortMachine::new\(frame_buffer, to_buffer_index\);/
     proof { assert(machine.frames_in_order@ =~= Seq::<Frame>::empty()); }
+//@ hint after 1/1 /machine\.sort_once\(index, sub_index\)\?;/
+    proof { reveal(rest_ok); assert(machine.frame_buffer@[gstart].opt_frame is None); assert(emitted(machine.frame_buffer@, machine.frames_in_order@, gstart)); }
 //@ end
 
 //@ extract sort.rs fn topological_sort_all
 //@ props C12 C05 C01
 //@ attr #[verifier::loop_isolation(false)]
 //@ ret res
-//@ addarg * /machine\.sort_once/ Ghost(tl), Ghost(g)
-//@ addarg * /machine\.get_result/ Ghost(tl)
+//@ addarg * /machine\.sort_once/ Ghost(tl), Ghost(ft)
+//@ addarg * /machine\.get_result/ Ghost(tl), Ghost(ft), Ghost(gstart)
 //@ spec
     requires rules@.len() <= usize::MAX, nonempty_targets(rules@),
     ensures true,       // total: no panic, termination (native obligations)                                                  //# O-S-total-all [C05,C12]
@@ -1137,7 +1363,7 @@ proof fn table_in_g(fb: Seq<FrameBufferValue>, m: Map<String, (usize, usize)>, t
         res matches Err(e) ==> ((e is CircularDependence || e is SelfDependentRule) ==> cyclic(g_tab(sort_rules_spec(rules_view(rules@))), sort_rules_spec(rules_view(rules@)).len() as int)),   //# O-S-cycle-real [C12]
 //@ hint start
     let ghost tab = sort_rules_spec(rules_view(rules@));
-    let ghost tl = tcounts(tab); let ghost g = g_tab(tab);
+    let ghost tl = tcounts(tab);
     let ghost rv = rules_view(rules@);
 //@ hint after 1/1 /let \(frame_buffer, to_buffer_index\) = rules_to_frame_buffer\(rules\)\?;/
     proof {
@@ -1147,10 +1373,15 @@ proof fn table_in_g(fb: Seq<FrameBufferValue>, m: Map<String, (usize, usize)>, t
         assert(rest_ok(frame_buffer@, Seq::<Frame>::empty(), to_buffer_index@, tl)) by { reveal(rest_ok); }
         table_in_g(frame_buffer@, to_buffer_index@, tab);
     }
+    let ghost ft = table_frames(frame_buffer@); let ghost m = to_buffer_index@;
+    proof { if cyclic(gf(ft, m), tab.len() as int) { cyclic_mono(gf(ft, m), g_tab(tab), tab.len() as int); } }
+//@ hint before 1/1 /let mut machine = TopologicalSortMachine::new\(frame_buffer, to_buffer_index\);/
+    let ghost gstart = 0int;
 //@ hint after 1/1 /let mut machine = TopologicalSortMachine::new\(frame_buffer, to_buffer_index\);/
     proof { assert(machine.frames_in_order@ =~= Seq::<Frame>::empty()); }
 //@ loop 1 invariant
-        invariant machine.wf_s(tl), machine.wf_e(), machine.wf_o(tl), machine.wf_g(g, tl.len() as int), frame_buffer_len == tl.len(), tl.len() == tab.len(), g == g_tab(tab),
+        invariant machine.wf_s(tl), machine.wf_e(), machine.wf_o(tl), machine.wf_g(ft), ft.len() == tl.len(), frame_buffer_len == tl.len(), tl.len() == tab.len(), machine.to_buffer_index@ == m,
+            cyclic(gf(ft, m), tab.len() as int) ==> cyclic(g_tab(tab), tab.len() as int),
 //@ end
 
 // path t is a target at two different places of the table
